@@ -176,6 +176,7 @@ var hostsAddrFields = []string{"1.2.3.4", "::1", "fe80::1%eth0", "::ffff:1.2.3.4
 	"FE80::A", "0:0:0:0:0:0:0:1", "::ffff:102:304", "1.2.3.4%eth0", "", "fe80::1%", "[::1]"}
 var hostsNameFields = []string{"a", "host.example", "a-b.c", "_srv.example", "a_b.example", "-a.example", "ex.123", strings.Repeat("a", 63) + ".com", strings.Repeat("a", 64) + ".com",
 	"пример.рф", "a\xffb.com", "a\rb.example", "a\vb.c", "a b.example", "x", "EXAMPLE.COM", "xn--e1afmkfd.xn--p1ai", "xn---.com", "1.2.3.4", "a.", ".a", "a..b", "localhost",
+	"\u00a0", "\u0085", "\u3000", "\u2003\u00a0", "\u00a0x", "x\u00a0",
 	"xn--0.example", "www.xn--99999999999.example", "host.xn--zz", "XN--0.example", "ma\u017fs.example", "mass.example", "\u0130zmir.example", "izmir.example", "\u03c3\u03c2.example", "\u03a3\u03a3.example"}
 
 func genC07(g *G) {
